@@ -543,13 +543,9 @@ class PolygonTensor(PolytopeTensor):
             except LinearDependenceError as e:
                 if isinstance(other, SegmentCollection):
                     other = cast(SegmentTensor, other[~e.dependent_values])
-                result = cast(PlaneTensor, self._plane[~e.dependent_values]).meet(other._line)
-                return list(
-                    result[
-                        PolygonCollection.from_tensor(self[~e.dependent_values]).contains(result)
-                        & other.contains(result)
-                    ]
-                )
+                polygons, plane = self._independent_positions(~e.dependent_values)
+                result = plane.meet(other._line)
+                return list(result[polygons.contains(result) & other.contains(result)])
             else:
                 return list(result[self.contains(result) & other.contains(result)])
 
@@ -558,10 +554,17 @@ class PolygonTensor(PolytopeTensor):
         except LinearDependenceError as e:
             if other.free_indices > 0:
                 other = other[~e.dependent_values]
-            result = cast(PlaneTensor, self._plane[~e.dependent_values]).meet(other)
-            return list(result[PolygonCollection.from_tensor(self[~e.dependent_values]).contains(result)])
+            polygons, plane = self._independent_positions(~e.dependent_values)
+            result = plane.meet(other)
+            return list(result[polygons.contains(result)])
         else:
             return list(result[self.contains(result)])
+
+    def _independent_positions(self, independent: npt.NDArray[np.bool_]) -> tuple[PolygonTensor, PlaneTensor]:
+        # a single polygon is met by every element of a collection, only collections of polygons are filtered
+        if self._plane.free_indices == 0 and np.ndim(independent) > 0:
+            return self, self._plane
+        return PolygonCollection.from_tensor(self[independent]), cast(PlaneTensor, self._plane[independent])
 
     def _normalized_projection(self) -> np.ndarray:
         points = self.array
